@@ -77,6 +77,10 @@ def random_config(rng, seed, mode=None, nd=None, dtype=None, maxcap=3000, strat=
     if big and rng.random() < 0.7:
         y = rng.choice([2069, 2080, 2099])   # absolute sample indices at or above 2^63
     t_s = calendar.timegm((y, rng.randint(1, 12), rng.randint(1, 28), rng.randint(0, 23), rng.randint(0, 59), rng.randint(0, 59)))
+    if rng.random() < 0.15:
+        # calendar corners of the subdirectory name
+        Y, Mo, D = rng.choice([(2000, 2, 29), (2024, 2, 29), (2096, 2, 29), (2100, 2, 28), (2100, 3, 1), (1999, 12, 31), (2024, 3, 1)])
+        t_s = calendar.timegm((Y, Mo, D, rng.choice([0, 12, 23]), rng.choice([0, 59]), rng.choice([0, 59])))
     t0 = t_s * 1000 // fc * fc
     if rng.random() < 0.6:
         # put a subdirectory boundary inside the modelled windows
